@@ -49,6 +49,7 @@ def run(p, report, tier):
     report.analysed["classes"] = [c.name for c in classes]
     n_ent = 0
     diag = set()
+    callstats = {}
     for ci in classes:
         meths = public_methods(p, ci)
         it = Interp(p)
@@ -61,8 +62,11 @@ def run(p, report, tier):
             n_ent += 1
             check_entity(p, report, ci, f, it, r_param="R13.1", r_arr=None, r_est=None)
         diag |= it.diag
+        for _k, _v in it.stats.items():
+            callstats[_k] = callstats.get(_k, 0) + _v
     report.analysed["entities"] = n_ent
     report.analysed["diagnostics"] = sorted(diag)
+    report.analysed["call_resolution"] = callstats
     report.assumptions += [
         "aliasing is under-approximated: an external call not in the alias tables returns a fresh object",
         "constructor parameters = attributes stored by any __init__ along the MRO",
